@@ -354,6 +354,9 @@ def run(P, R, L):
     K.fs2_disk_operations_are_their_namesakes(P, R, L)
     R.clause("LIST-1", "a walk over the version list starts at its head and follows the next links: get_live_files sees the files of every linked version")
     K.list1_iteration_covers_the_list(P, R, L)
+    from . import blind
+    R.clause("LST-1", "the intrusive list behind the version list: remove_node unlinks exactly the given node on both sides (head / tail included), push_node appends behind the old tail")
+    blind.lst1_link_repairs(P, R, L)
     R.clause("GRD-24", "a declined manifest re-use leaves manifest_file_number alone (it names the manifest that is kept and that CURRENT points at)")
     K.grd24_reuse_adopts_number_with_file(P, R, L)
     R.clause("GRD-36", "a replacement manifest is written under a fresh file number: the manifest CURRENT names is never truncated")
